@@ -362,7 +362,9 @@ impl Acc {
         for (k, n) in &self.stats {
             ctx.stat(k, *n);
         }
-        ctx.outcome_set_merge(&self.outcomes);
+        for v in &self.outcomes {
+            ctx.outcome(v);
+        }
         ctx.add_states(self.states);
         ctx.add_transitions(self.transitions);
         ctx.add_evaluations(self.evaluations);
